@@ -15,6 +15,8 @@ def run(chk, prog, tier):
     TR.t3v_vector_siblings(chk, tab)
     CR.t5v_vex_layout(chk, prog)
     TR.t4_registers(chk, prog)
+    from valib import pipeline as PLo
+    PLo.prefix_after_rewrite_rule(chk, prog)
     from valib import pipeline as PL
     PL.encoder_idempotence_rule(chk, prog, PL.Roles(prog))
     nvec = sum(1 for r in tab.rows[3:-1] if vec(r))
